@@ -268,6 +268,12 @@ func runGen(c *ctx, co *corpus, tags string, per int, race bool) *genAgg {
 		for _, h := range br.Distinct[c.Prop] {
 			agg.Distinct[h] = struct{}{}
 		}
+		for _, ap := range c.AlsoProps {
+			agg.NonTrivial += br.NonTrivial[ap]
+			for _, h := range br.Distinct[ap] {
+				agg.Distinct[h] = struct{}{}
+			}
+		}
 		for k, v := range br.Features {
 			agg.Features[k] += v
 		}
@@ -283,7 +289,13 @@ func runGen(c *ctx, co *corpus, tags string, per int, race bool) *genAgg {
 			c.R.Inconclusive(in)
 		}
 		for _, v := range br.Viols {
-			if !hasStr(v.Props, c.Prop) {
+			relevant := hasStr(v.Props, c.Prop)
+			for _, ap := range c.AlsoProps {
+				if hasStr(v.Props, ap) {
+					relevant = true
+				}
+			}
+			if !relevant {
 				continue
 			}
 			obs := v.Obs
